@@ -39,6 +39,7 @@ type World struct {
 	noret map[*ssa.Function]bool
 	catalog *Catalog
 	raise   *Raise
+	recording, mayRecord map[*ssa.Function]bool
 }
 
 func corePkg(path string) bool {
